@@ -106,8 +106,20 @@ def own_params(fn):
     return ps
 
 
+def leading_named(fn):
+    """the leading named parameter of a netref method (it receives the proxy), or None"""
+    ps = list(inspect.signature(fn).parameters.values())
+    if ps and ps[0].kind in (ps[0].POSITIONAL_ONLY, ps[0].POSITIONAL_OR_KEYWORD):
+        return ps[0]
+    return None
+
+
 def sig_shape(fn):
+    """the made function's signature; `self` stands for a leading NAMED parameter (whatever it is called) that receives
+    the proxy - together with `**` that name is one no keyword argument of the target can use"""
     out, n = [], 0
+    if leading_named(fn) is not None:
+        out.append("self")
     for p in own_params(fn):
         if p.kind in (p.POSITIONAL_ONLY, p.POSITIONAL_OR_KEYWORD):
             n += 1
@@ -201,15 +213,45 @@ def observe_made_method(netref, consts, name):
 KEYWORD_CANDIDATES = ["self", "_self", "args", "kwargs", "name", "cls", "proxy", "handler", "doc", "obj", "key", "x"]
 
 
+def signature_names(fn):
+    """every parameter name of a function's signature, through any `functools.wraps` chain"""
+    names, seen = [], set()
+    while fn is not None and id(fn) not in seen:
+        seen.add(id(fn))
+        try:
+            names += [p.name for p in inspect.signature(fn, follow_wrapped=False).parameters.values()]
+        except (TypeError, ValueError):
+            pass
+        code = getattr(fn, "__code__", None)
+        if code is not None:
+            # (also the names a wrapper declares that `inspect.signature` would hide)
+            names += list(code.co_varnames[:code.co_argcount + code.co_kwonlyargcount])
+        fn = getattr(fn, "__wrapped__", None)
+    return [n for k, n in enumerate(names) if n not in names[:k]]
+
+
+def made_method_keyword_candidates(netref):
+    """the keyword names a made method could keep to itself: a keyword argument is captured by the function exactly when
+    it names one of its parameters, so the parameter names of the made functions ARE the complete candidate list (the
+    fixed names are kept as well)"""
+    out = list(KEYWORD_CANDIDATES)
+    for made in ("__call__", "observed_method_name"):
+        for n in signature_names(netref._make_method(made, "doc")):
+            if n not in out:
+                out.append(n)
+    return out
+
+
 def observe_reserved_keywords(netref, consts):
     """keyword names a made method that forwards **kwargs refuses for itself (it raises before asking the connection
     for anything): the target might accept that very keyword, so every such name is a call the proxy cannot forward"""
     reserved = []
+    candidates = made_method_keyword_candidates(netref)
     for made in ("__call__", "observed_method_name"):
         fn = netref._make_method(made, "doc")
         if not any(p.kind == p.VAR_KEYWORD for p in own_params(fn)):
             continue
-        for kw in KEYWORD_CANDIDATES:
+        for kw in candidates:
             rec = Recorder()
             proxy = netref.BaseNetref(rec, ("observed.Class", 1001, 6006))
             rec.calls[:] = []
@@ -356,13 +398,15 @@ def gen_netref():
         shapes.append("(%s, %s, %s, %s, %s, %s)" % (lean_str(key), lean_str(shape), lean_str(kind), lean_str(target),
                                                     lean_str(h), lean_strs(list(pats), 8)))
     L += ["/-- `_make_method`: (name class, made function's signature, syncreq|asyncreq, proxy expression, HANDLE_*, argument",
-          "patterns); `$name` is the method's name, `$*`/`$**` the made function's *args/**kwargs -/",
+          "patterns); `$name` is the method's name, `$*`/`$**` the made function's *args/**kwargs, `self` in the signature a",
+          "leading named parameter that receives the proxy -/",
           "def makeMethodShapes : List (String × String × String × String × String × List String) := " + lean_list(shapes, 1),
           "def slicers : List (String × String) := " + lean_list(
               ["(%s, %s)" % (lean_str(k), lean_str(v)) for k, v in sorted(slicer_rows)], 3), ""]
 
-    L += ["/-- keyword names (of a fixed candidate list) that a made `__call__` / method refuses or does not forward although it",
-          "takes **kwargs: a target accepting that keyword cannot be called with it through a proxy.  Must be empty. -/",
+    L += ["/-- keyword names (every parameter name of the made functions' signatures, plus a fixed list) that a made `__call__` /",
+          "method refuses or does not forward although it takes **kwargs: a target accepting that keyword cannot be called with",
+          "it through a proxy.  Must be empty. -/",
           "def reservedKeywords : List String := " + lean_strs(observe_reserved_keywords(netref, consts)), ""]
 
     # -- helpers.buffiter (observed)
